@@ -1,0 +1,36 @@
+//go:build verif
+// +build verif
+
+package table
+
+import (
+	"github.com/syndtr/goleveldb/leveldb/cache"
+	"github.com/syndtr/goleveldb/leveldb/iterator"
+)
+
+// Read-only exports for the verification harness (check C20).
+
+// VerifIterBlock returns the buffer (over its full capacity, not a copy) of the block a block iterator walks —
+// a data block iterator or the index iterator of a table iterator — and how the iterator holds it: through a
+// handle of the block cache (cached), as the only owner (a private buffer, released to the buffer pool), or
+// not at all (the index block a Reader keeps for itself when there is no block cache). ok is false for any
+// other iterator and for a released one.
+func VerifIterBlock(it iterator.Iterator) (data []byte, cached, owned, ok bool) {
+	var bi *blockIter
+	switch x := it.(type) {
+	case *blockIter:
+		bi = x
+	case *indexIter:
+		bi = x.blockIter
+	}
+	if bi == nil || bi.block == nil || bi.block.data == nil {
+		return nil, false, false, false
+	}
+	switch bi.blockReleaser.(type) {
+	case *cache.Handle:
+		cached = true
+	case *block:
+		owned = true
+	}
+	return bi.block.data[:cap(bi.block.data)], cached, owned, true
+}
